@@ -125,6 +125,7 @@ func (e *Engine) RunRoot(fn *ssa.Function) (err error) {
 		e.checkAppendOnly(s, fn, fr.contract)
 		e.checkNoEarlyExit(s, fn, fr.contract)
 		e.checkFieldCalledOnlyHere(s, fn, fr.contract)
+		e.checkEveryIterationCalls(s, fn, fr.contract)
 		e.checkSpawnNeverWrites(s, fr, fn, fr.contract)
 		e.checkGuarded(s, fn, fr.contract)
 		e.checkOnlyCallers(s, fn, fr.contract)
